@@ -159,7 +159,11 @@ func NewStack(kind string, capacity int) stackage.Stack {
 	if capacity != 0 {
 		c = []int{capacity}
 	}
-	return NewStackArgs(kind, c...)
+	s := NewStackArgs(kind, c...)
+	if AutoMutex {
+		s.SetMutex()
+	}
+	return s
 }
 
 // NewStackArgs creates a stack of the named kind with the literal constructor arguments.
